@@ -70,7 +70,7 @@ class Plan:
     def render(self):
         lines = []
         for k, v in sorted(self.knobs.items()):
-            if v is None or k in ("symlinks", "stale"):      # prepared by run_plan, not by rtsim
+            if v is None or k in ("symlinks", "stale", "restart_from"):      # prepared by run_plan, not by rtsim
                 continue
             lines.append("knob %s %s" % (k, v))
         for i, t in enumerate(self.ops):
@@ -167,6 +167,9 @@ def run_plan(ctx, plan, workdir, variant="real", san="asan", timeout=120):
         link, target = spec.split(":")
         os.makedirs(os.path.join(root, target))
         os.symlink(target, os.path.join(root, link))
+    if plan.knobs.get("restart_from"):
+        # restart in place: the trace directory of an earlier, complete incarnation is what this one starts on
+        shutil.copytree(plan.knobs["restart_from"], os.path.join(root, (plan.knobs.get("tracedir") or "ovni").rstrip("/")))
     for spec in filter(None, str(plan.knobs.get("stale") or "").split(",")):
         # what an earlier incarnation of the same program (same loom, PID and TIDs: a container, a batch job restarted
         # in place) left behind: <thread directory relative to the root>:<number of old events>
